@@ -6,8 +6,8 @@ import random
 from . import runner, api
 
 
-def run(prop, tier, seed, only=None, jobs=None):
-    res = runner.run_property(prop, tier=tier, seed=seed, only=only, jobs=jobs)
+def run(prop, tier, seed, only=None, jobs=None, include=()):
+    res = runner.run_property(prop, tier=tier, seed=seed, only=only, jobs=jobs, include=include)
     items = []
     notes = []
     for r in res:
